@@ -207,6 +207,10 @@ Section Sem.
     end.
 End Sem.
 
+(* `do F` may name any flow of the program (the dialog flow included): _call_subflow does not
+   check that F was declared as a subflow *)
+Definition all_flows (p : prog) : list (string * list stmt) := (p_id p, p_main p) :: p_subs p.
+
 Definition actionable (w : wait) : bool :=
   match w with
   | WUser _ => false
@@ -261,7 +265,7 @@ Definition spec_event (fuel : nat) (p : prog) (s : spec_state) (ev : event) : re
           match p_main p with
           | SUser i :: rest =>
               if wait_match (WUser i) ev
-              then of_xres (exec (p_subs p) fuel (sp_ctx s) [] rest KDone)
+              then of_xres (exec (all_flows p) fuel (sp_ctx s) [] rest KDone)
               else Ok {| sp_st := Idle; sp_ctx := sp_ctx s; sp_upd := []; sp_next := None |}
           | _ => Exc                                             (* excluded by wf *)
           end
@@ -269,7 +273,7 @@ Definition spec_event (fuel : nat) (p : prog) (s : spec_state) (ev : event) : re
           if negb (string_in (event_type ev) default_triggers) then
             Ok {| sp_st := sp_st s; sp_ctx := sp_ctx s; sp_upd := [];
                   sp_next := if actionable w then Some w else None |}
-          else if wait_match w ev then of_xres (resume (p_subs p) fuel (sp_ctx s) [] k stk)
+          else if wait_match w ev then of_xres (resume (all_flows p) fuel (sp_ctx s) [] k stk)
           else if actionable w then Ok {| sp_st := Idle; sp_ctx := sp_ctx s; sp_upd := []; sp_next := None |}
           else Ok {| sp_st := sp_st s; sp_ctx := sp_ctx s; sp_upd := []; sp_next := None |}
       end
@@ -300,7 +304,8 @@ Definition next_steps (fuel : nat) (p : prog) (hist : list event) : res (list ou
 
 (* ------------------------------------------------------------------ well-formedness *)
 
-(* break / continue only inside a loop; no `execute utter` *)
+(* break / continue only inside a loop; no `execute utter`; the dialog flow starts with a user
+   statement; subflow bodies are not empty (Colang cannot express an empty body); distinct names *)
 Fixpoint wf_stmt (inloop : bool) (s : stmt) : bool :=
   match s with
   | SBreak | SContinue => inloop
@@ -322,7 +327,7 @@ Fixpoint distinct (l : list string) : bool :=
 Definition wf_prog (p : prog) : bool :=
   match p_main p with SUser _ :: _ => true | _ => false end &&
   wf_block false (p_main p) &&
-  forallb (fun nb => wf_block false (snd nb)) (p_subs p) &&
+  forallb (fun nb => match snd nb with [] => false | _ => true end && wf_block false (snd nb)) (p_subs p) &&
   distinct (p_id p :: map fst (p_subs p)).
 
 (* ------------------------------------------------------------------ sanity *)
